@@ -618,7 +618,8 @@ class Expr:
 			return ('local', l, name or ('arg%d' % l))
 		if depth > self.max_depth:
 			return ('local', l, name)
-		ds = fu.defs.get(l, [])
+		# writes through a pointer held in the local (`*_4 = ..`) do not redefine the local
+		ds = [d for d in fu.defs.get(l, []) if len(d[2]) == 1 or d[2][1] != '*']
 		whole = [d for d in ds if len(d[2]) == 1]
 		if len(whole) == 1 and len(ds) == 1 and name is None:
 			d = whole[0]
@@ -886,6 +887,12 @@ _TRANSPARENT = {
 	'core::option::Option::copied': ('option', 'option', False),
 	'core::result::Result::as_ref': ('result', 'result', False),
 	'core::clone::Clone::clone': 'same',
+	'core::future::into_future::IntoFuture::into_future': 'same',
+	'core::pin::Pin::new_unchecked': 'same',
+	'core::pin::Pin::new': 'same',
+	'alloc::boxed::Box::pin': 'same',
+	'alloc::boxed::Box::new': 'same',
+	'core::future::future::Future::poll': 'poll',
 	'core::convert::Into::into': None,
 }
 
@@ -894,10 +901,23 @@ def decisions_on(fu, seeds):
 	{'bool','result','option','cf'}.  Propagates through copies/moves/refs/casts/Not/
 	discriminant/transparent calls and returns the list of Decisions taken on them."""
 	taint = {}   # local -> (kind, neg)
-	work = []
+	place_seeds = []
 	for l, kind, neg in seeds:
-		taint[l] = (kind, neg)
-		work.append(l)
+		if callable(l):
+			place_seeds.append((l, kind, neg))
+		else:
+			taint[l] = (kind, neg)
+	def src_taint(pl):
+		# taint of a source place: a bare (possibly dereferenced) tainted local, or a seeded place
+		if (len(pl) == 1 or all(e == '*' for e in pl[1:])) and pl[0] in taint:
+			return taint[pl[0]]
+		for pred, kind, neg in place_seeds:
+			if pred(pl):
+				return (kind, neg)
+		# payload of Poll::Ready of a polled tainted future
+		if len(pl) == 3 and pl[1] == '@Ready' and pl[0] in taint and taint[pl[0]][0].startswith('poll:'):
+			return (taint[pl[0]][0][5:], taint[pl[0]][1])
+		return None
 	# discriminant locals: local -> (kind, neg) of the place it was read from
 	disc = {}
 	changed = True
@@ -916,14 +936,18 @@ def decisions_on(fu, seeds):
 				src = None
 				neg = False
 				k = rv[0]
+				st = None
 				if k == 'use' and rv[1][0] in ('c', 'm'):
-					pl = rv[1][1]
-					if len(pl) == 1 or all(e == '*' for e in pl[1:]):
-						src = pl[0]
+					st = src_taint(rv[1][1])
 				elif k == 'ref':
-					pl = rv[2]
-					if len(pl) == 1 or all(e == '*' for e in pl[1:]):
-						src = pl[0]
+					st = src_taint(rv[2])
+				if st is not None:
+					if taint.get(d) != st:
+						taint[d] = st
+						changed = True
+					continue
+				if k in ('use', 'ref'):
+					continue
 				elif k == 'cast' and rv[2][0] in ('c', 'm') and len(rv[2][1]) == 1:
 					src = rv[2][1][0]
 				elif k == 'un' and rv[1] == 'Not' and rv[2][0] in ('c', 'm') and len(rv[2][1]) == 1:
@@ -931,8 +955,9 @@ def decisions_on(fu, seeds):
 					neg = True
 				elif k == 'disc':
 					pl = rv[1]
-					if (len(pl) == 1 or all(e == '*' for e in pl[1:])) and pl[0] in taint:
-						kd, ng = taint[pl[0]]
+					stt = src_taint(pl)
+					if stt is not None:
+						kd, ng = stt
 						if kd in ('result', 'option', 'cf') and disc.get(d) != (kd, ng):
 							disc[d] = (kd, ng)
 							changed = True
@@ -951,10 +976,16 @@ def decisions_on(fu, seeds):
 				rule = _TRANSPARENT.get(decl) or _TRANSPARENT.get(f)
 				if rule and ci['args'] and ci['args'][0][0] in ('c', 'm') and len(ci['dest']) == 1:
 					apl = ci['args'][0][1]
-					if (len(apl) == 1 or all(e == '*' for e in apl[1:])) and apl[0] in taint:
-						kd, ng = taint[apl[0]]
+					stt = src_taint(apl)
+					if stt is not None:
+						kd, ng = stt
 						nv = None
-						if rule == 'cf':
+						if rule == 'poll':
+							if not kd.startswith('poll:'):
+								nv = ('poll:' + kd, ng)
+						elif kd.startswith('poll:'):
+							nv = None
+						elif rule == 'cf':
 							if kd == 'result' or kd == 'option':
 								nv = ('cf', ng)
 						elif rule == 'same':
@@ -1545,3 +1576,66 @@ def constructs_pred(adt, variant):
 				return True
 		return False
 	return pred
+
+# ----------------------------------------------------------------------------- error discipline (P14)
+
+_AWAIT_MACHINERY = ('IntoFuture::into_future', 'Pin::new_unchecked', 'Pin::new', 'Future::poll', 'future::get_context')
+
+def result_consumed(fu, call_block, kind='result'):
+	"""what happens to the (possibly awaited) result of the call ending `call_block`:
+	returns (status, how) with status in {'branched','returned','stored','passed','dropped'}."""
+	seed = call_result_seed(fu, call_block, kind)
+	if seed is None:
+		return ('stored', 'assigned into a place')
+	ds, taint = decisions_on(fu, [seed])
+	if ds:
+		return ('branched', 'line %d' % fu.line_of(ds[0].b))
+	tl = set(taint)
+	# value-flow closure through plain moves into other locals / aggregates / refs
+	changed = True
+	how = None
+	while changed:
+		changed = False
+		for bi, si, s in fu.stmts():
+			rv = s[2]
+			ops = []
+			if rv[0] == 'use':
+				ops = [rv[1]]
+			elif rv[0] == 'agg':
+				ops = rv[4]
+			elif rv[0] == 'ref':
+				ops = [['c', rv[2]]]
+			elif rv[0] == 'cast':
+				ops = [rv[2]]
+			for o in ops:
+				if o[0] in ('c', 'm') and o[1][0] in tl:
+					d = s[1][0]
+					if d == 0:
+						return ('returned', 'line %d' % s[0])
+					if rv[0] == 'agg' and rv[1] in ('closure',):
+						return ('passed', 'captured by a closure/async block at line %d' % s[0])
+					if len(s[1]) > 1:
+						return ('stored', 'line %d' % s[0])
+					if d not in tl:
+						tl.add(d)
+						changed = True
+	for b, ci in fu.calls():
+		f = norm(ci.get('t') or ci.get('f') or '')
+		if any(f.endswith(m) for m in _AWAIT_MACHINERY):
+			# dest of the machinery continues the flow (already in taint)
+			continue
+		for a in ci['args']:
+			if a[0] in ('c', 'm') and a[1][0] in tl:
+				if f in _TRANSPARENT or (norm(ci.get('f') or '') in _TRANSPARENT):
+					d = ci['dest'][0]
+					if d == 0:
+						return ('returned', 'line %d' % fu.line_of(b))
+					continue
+				return ('passed', 'argument of %s at line %d' % (f.rsplit('::', 1)[-1], fu.line_of(b)))
+	# second pass: transparent call destinations (map_err etc.) may be returned
+	for b, ci in fu.calls():
+		f = norm(ci.get('t') or ci.get('f') or '')
+		if (f in _TRANSPARENT or norm(ci.get('f') or '') in _TRANSPARENT) and any(a[0] in ('c', 'm') and a[1][0] in tl for a in ci['args']):
+			if ci['dest'][0] == 0:
+				return ('returned', 'line %d' % fu.line_of(b))
+	return ('dropped', '')
